@@ -138,6 +138,8 @@ impl Doc {
 enum Src<'a> {
     Slice(&'a [u8]),
     Chunked(&'a [u8], Vec<usize>),
+    /// the very first refill fails with an I/O error; the caller reads on
+    ChunkedFault(&'a [u8], Vec<usize>),
     Str(&'a str),
 }
 
@@ -169,7 +171,18 @@ fn read_decoded(src: Src, expect_enc: &'static Encoding, feff_ok: bool) -> Resul
                 Event::End(e) => out.push((Kind::End, d(e.name().as_ref())?, vec![])),
                 Event::Text(e) => out.push((Kind::Text, e.unescape().map_err(|e| format!("text does not unescape: {}", e))?.into_owned(), vec![])),
                 Event::Comment(e) => out.push((Kind::Comment, d(e)?, vec![])),
-                Event::CData(e) => out.push((Kind::CData, d(e)?, vec![])),
+                Event::CData(e) => {
+                    let raw = d(e)?;
+                    // the conversions of a CDATA section into an (escaped) text must carry the same string
+                    for (what, t) in [("escape", e.clone().escape()), ("partial_escape", e.clone().partial_escape()), ("minimal_escape", e.clone().minimal_escape())] {
+                        let t = t.map_err(|x| format!("BytesCData::{}() of {:?}: {}", what, show(e), x))?;
+                        let back = t.unescape().map_err(|x| format!("BytesCData::{}().unescape() of {:?}: {}", what, show(e), x))?;
+                        if back != raw {
+                            return Err(format!("BytesCData::{}().unescape() gives {:?} but the section holds {:?}", what, back, raw));
+                        }
+                    }
+                    out.push((Kind::CData, raw, vec![]))
+                }
                 Event::PI(e) => out.push((Kind::PI, d(e)?, vec![])),
                 Event::DocType(e) => out.push((Kind::DocType, d(e)?, vec![])),
             }
@@ -184,6 +197,25 @@ fn read_decoded(src: Src, expect_enc: &'static Encoding, feff_ok: bool) -> Resul
     match src {
         Src::Slice(b) => go(|r| r.read_event().map(|e| e.into_owned()), Reader::from_reader(b), expect_enc, call_bound(b.len()) + 2, feff_ok),
         Src::Str(s) => go(|r| r.read_event().map(|e| e.into_owned()), Reader::from_str(s), expect_enc, call_bound(s.len()) + 2, feff_ok),
+        Src::ChunkedFault(b, cuts) => {
+            let mut buf = Vec::new();
+            let mut failed = false;
+            let mut src = ChunkedRead::new(b, cuts);
+            src.faults = vec![(0, crate::sources::Fault::Other(std::io::ErrorKind::TimedOut))];
+            go(
+                move |r| loop {
+                    buf.clear();
+                    match r.read_event_into(&mut buf) {
+                        Err(quick_xml::Error::Io(_)) if !failed => failed = true,
+                        other => return other.map(|e| e.into_owned()),
+                    }
+                },
+                Reader::from_reader(src),
+                expect_enc,
+                call_bound(b.len()) + 2,
+                feff_ok,
+            )
+        }
         Src::Chunked(b, cuts) => {
             let mut buf = Vec::new();
             go(
@@ -242,11 +274,25 @@ fn check_doc(e: &'static Encoding, doc: &Doc, cuts: Option<Vec<usize>>) -> Resul
     let want = expected(doc);
     let got = match cuts {
         None => read_decoded(Src::Slice(&bytes), expect_enc, feff),
-        Some(c) => read_decoded(Src::Chunked(&bytes, c), expect_enc, feff),
+        Some(ref c) => read_decoded(Src::Chunked(&bytes, c.clone()), expect_enc, feff),
     }
     .map_err(|m| format!("{} (encoding {}, bytes {})", m, e.name(), hex(&bytes[..bytes.len().min(200)])))?;
     if let Some(d) = diff(&want, &got) {
         return Err(format!("encoding {}: {}", e.name(), d));
+    }
+    // the same bytes when the very first refill of the source fails and the caller reads on: the reader
+    // either is finished (no events) or detects the encoding and removes the mark as if nothing had happened
+    if let Some(c) = &cuts {
+        match read_decoded(Src::ChunkedFault(&bytes, c.clone()), expect_enc, feff) {
+            Ok(got) if got.is_empty() => {}
+            Ok(got) => {
+                if let Some(d) = diff(&want, &got) {
+                    return Err(format!("encoding {}, after an I/O error at the first refill: {}", e.name(), d));
+                }
+            }
+            Err(m) if m.starts_with("reader error") => {}
+            Err(m) => return Err(format!("after an I/O error at the first refill: {} (encoding {})", m, e.name())),
+        }
     }
     // Reader::from_str: the declaration must not override UTF-8
     let got = read_decoded(Src::Str(&utf8), UTF_8, feff).map_err(|m| format!("from_str: {}", m))?;
